@@ -236,6 +236,12 @@ theorem fanOut_same (k : AKind) (q : Qid) (s : State) (ps : List Peer) (outs : L
   | nil => exact h0
   | cons p ps ih => simp only [fanOut]; exact ih _ _ (h0.trans (osd_same ..))
 
+theorem inbound_engine (s : State) (p : Peer) : (inbound s p).engine = s.engine := by
+  unfold inbound; split <;> rfl
+
+theorem inbound_same (s : State) (p : Peer) : SameLedger s (inbound s p) := by
+  unfold inbound; split <;> exact ⟨rfl, rfl, rfl, rfl, rfl⟩
+
 theorem execResult_same (s : State) (f : Fut) (r : Res) :
     (execResult s f r).events = s.events ∧ (execResult s f r).started = s.started ∧
     (execResult s f r).nextQid = s.nextQid ∧ (execResult s f r).successLog = s.successLog := by
@@ -604,6 +610,12 @@ theorem Ledger.step {s s' : State} (h : Ledger s) {l : Label} (hstep : step s l 
     injection hstep with hstep; subst hstep
     have hs := execResult_same s f r
     exact h.of_same' hs.1 hs.2.1 hs.2.2.1 (execResult_ids ..)
+  | inbound p =>
+    injection hstep with hstep; subst hstep
+    exact h.of_same (inbound_same ..) (by rw [inbound_engine])
+  | inboundFailed p =>
+    injection hstep with hstep; subst hstep
+    exact h.of_same (disconnectPeer_same ..) (disconnectPeer_shrinks _ _ _ _ (.refl _)).ids
 
 theorem Ledger.reachable {s : State} (h : Reachable s) : Ledger s := by
   induction h with
@@ -872,5 +884,11 @@ theorem QuorumInv.step {s s' : State} (h : QuorumInv s)
         rw [hxq, ← hk]
         exact hfm
       · rw [hsr]; exact List.mem_cons_self
+  | inbound p =>
+    injection hstep with hstep; subst hstep
+    exact h.of_shrinks (inbound_same ..) (by rw [inbound_engine]; exact .refl _)
+  | inboundFailed p =>
+    injection hstep with hstep; subst hstep
+    exact h.of_shrinks (disconnectPeer_same ..) (disconnectPeer_shrinks _ _ _ _ (.refl _))
 
 end Litep2pVerif.Kad.Coordinator
